@@ -973,11 +973,14 @@ def layers_run(ctx, rng, base, assign, allflag, route, tag):
         try:
             sys.argv = argv
             os.chdir(ctx.scratch)
+            sys.path.insert(0, ctx.scratch)       # as for `python -m pyanalyze` started in that directory
             with contextlib.redirect_stderr(io.StringIO()), contextlib.redirect_stdout(io.StringIO()):
                 _REC.main()
         finally:
             sys.argv = old_argv
             os.chdir(old_cwd)
+            if ctx.scratch in sys.path:
+                sys.path.remove(ctx.scratch)
             for k in [k for k in sys.modules if k.startswith("c11pkg.sub.m")]:
                 sys.modules.pop(k, None)
         vs = [v for v in _REC._last if v.filename.endswith("m%d.py" % _MODN[0])]
@@ -1042,7 +1045,7 @@ def run_layers(ctx, with_model=True):
     pair = [on[0], off[0]]
     exh = [(vals, allflag) for vals in itertools.product([None, True, False], repeat=len(EXH_LAYERS)) for allflag in (None, "E", "D")]
     ctx.extra["layers_exhaustive"] = "codes %s of LAYER_PROGRAM x all %d assignments of layers %s x all-flag" % (pair, len(exh), EXH_LAYERS)
-    cap = ctx.n(30, len(exh))
+    cap = ctx.n(40, len(exh))
     if len(exh) > cap:
         exh = rng.sample(exh, cap)
         ctx.extra["layers_exhaustive"] += "; sampled down to %d by the seed" % cap
@@ -1057,9 +1060,9 @@ def run_layers(ctx, with_model=True):
         jobs.append((base0, assign, allflag, "argv" if rng.random() < 0.25 else "kwargs"))
     # 2. random programs, every code its own random value in every layer
     PROFILE[0] = "std"
-    for _ in range(ctx.n(1, 12)):
+    for _ in range(ctx.n(2, 12)):
         base = gen_program(rng, small=True)
-        for _ in range(ctx.n(6, 25)):
+        for _ in range(ctx.n(5, 25)):
             jobs.append((base, None, rng.choice([None, None, "E", "D"]), "argv" if rng.random() < 0.3 else "kwargs"))
     # ---- run
     baselines = {}
